@@ -33,6 +33,7 @@ import (
 	"os"
 	"os/exec"
 	"path/filepath"
+	"runtime"
 	"sort"
 	"strconv"
 	"strings"
@@ -58,11 +59,11 @@ import (
 	"github.com/lightningnetwork/lnd/sweep"
 )
 
-var errC13Crashed = errors.New("c13: process is dead")
+var c13ErrCrashed = errors.New("c13: process is dead")
 
 const (
-	c13Idle      = 30 * time.Millisecond
-	c13FinalIdle = 1500 * time.Millisecond
+	c13Idle      = 3 * time.Millisecond
+	c13FinalIdle = 40 * time.Millisecond
 	c13StepMax   = 6 * time.Second
 )
 
@@ -241,7 +242,7 @@ func (e *c13Env) envWrite(ep int, what string, apply func()) error {
 	e.wmu.Lock()
 	defer e.wmu.Unlock()
 	if !e.isAlive(ep) {
-		return errC13Crashed
+		return c13ErrCrashed
 	}
 	e.mu.Lock()
 	apply()
@@ -277,7 +278,7 @@ func (d *c13DB) Update(f func(tx walletdb.ReadWriteTx) error, reset func()) erro
 	d.env.wmu.Lock()
 	defer d.env.wmu.Unlock()
 	if !d.env.isAlive(d.ep) {
-		return errC13Crashed
+		return c13ErrCrashed
 	}
 	if err := d.DB.Update(f, reset); err != nil {
 		return err
@@ -289,7 +290,7 @@ func (d *c13DB) Update(f func(tx walletdb.ReadWriteTx) error, reset func()) erro
 func (d *c13DB) View(f func(tx walletdb.ReadTx) error, reset func()) error {
 	d.env.touch()
 	if !d.env.isAlive(d.ep) {
-		return errC13Crashed
+		return c13ErrCrashed
 	}
 	return d.DB.View(f, reset)
 }
@@ -349,7 +350,7 @@ func (n *c13Notifier) RegisterSpendNtfn(op *wire.OutPoint, _ []byte,
 	e.mu.Lock()
 	defer e.mu.Unlock()
 	if !(e.alive && e.epoch == n.ep) {
-		return nil, errC13Crashed
+		return nil, c13ErrCrashed
 	}
 	if sp, ok := e.spends[*op]; ok {
 		ch <- sp
@@ -368,7 +369,7 @@ func (n *c13Notifier) RegisterBlockEpochNtfn(*chainntnfs.BlockEpoch) (
 	e.mu.Lock()
 	defer e.mu.Unlock()
 	if !(e.alive && e.epoch == n.ep) {
-		return nil, errC13Crashed
+		return nil, c13ErrCrashed
 	}
 	ch <- &chainntnfs.BlockEpoch{Height: e.height}
 	e.epochSubs = append(e.epochSubs, ch)
@@ -446,7 +447,7 @@ func (s *c13Sweeper) SweepInput(inp input.Input, _ sweep.Params) (
 	e := s.env
 	op := inp.OutPoint()
 	if !e.effect(s.ep, "S ep=%d sweep %s", s.ep, e.label(op)) {
-		return nil, errC13Crashed
+		return nil, c13ErrCrashed
 	}
 	ch := make(chan sweep.Result, 1)
 	e.mu.Lock()
@@ -464,9 +465,8 @@ func (s *c13Sweeper) SweepInput(inp input.Input, _ sweep.Params) (
 		return ch, nil
 	}
 	e.sweepSubs[op] = append(e.sweepSubs[op], ch)
-	if e.confirmable[e.label(op)] {
-		e.confirmOurs(op)
-	}
+	// A sweep never confirms instantly: if the chain already allows it, it
+	// confirms at the next environment step.
 	return ch, nil
 }
 
@@ -510,7 +510,7 @@ func (b *c13Beacon) LookupPreimage(h lntypes.Hash) (lntypes.Preimage, bool) {
 func (b *c13Beacon) AddPreimages(ps ...lntypes.Preimage) error {
 	e := b.env
 	if !e.isAlive(b.ep) {
-		return errC13Crashed
+		return c13ErrCrashed
 	}
 	e.touch()
 	e.mu.Lock()
@@ -737,6 +737,9 @@ func (r *c13Run) start() {
 	e.epochSubs = nil
 	e.beaconSubs = nil
 	e.breachSubs = nil
+	// The sweeper does not persist its inputs: whatever was offered by a
+	// previous incarnation and has not confirmed must be offered again.
+	e.offered = map[wire.OutPoint]bool{}
 	closed := e.fullyClosed
 	pending, ctype, cheight, h := e.pendingClose, e.closeType, e.closingHeight, e.height
 	e.mu.Unlock()
@@ -767,7 +770,7 @@ func (r *c13Run) start() {
 	cfg.PreimageDB = &c13Beacon{env: e, ep: ep}
 	cfg.PublishTx = func(tx *wire.MsgTx, _ string) error {
 		if !e.effect(ep, "P ep=%d publish", ep) {
-			return errC13Crashed
+			return c13ErrCrashed
 		}
 		e.mu.Lock()
 		e.published++
@@ -783,7 +786,7 @@ func (r *c13Run) start() {
 				kind = "settle"
 			}
 			if !e.effect(ep, "M ep=%d idx=%d %s", ep, m.HtlcIndex, kind) {
-				return errC13Crashed
+				return c13ErrCrashed
 			}
 			e.mu.Lock()
 			e.msgs = append(e.msgs, fmt.Sprintf("%d:%s", m.HtlcIndex, kind))
@@ -803,7 +806,7 @@ func (r *c13Run) start() {
 		e.mu.Lock()
 		defer e.mu.Unlock()
 		if !(e.alive && e.epoch == ep) {
-			return false, errC13Crashed
+			return false, c13ErrCrashed
 		}
 		if e.breachDone {
 			return true, nil
@@ -813,7 +816,7 @@ func (r *c13Run) start() {
 	}
 	cfg.PutFinalHtlcOutcome = func(_ lnwire.ShortChannelID, id uint64, settled bool) error {
 		if !e.effect(ep, "F ep=%d idx=%d settled=%v", ep, id, settled) {
-			return errC13Crashed
+			return c13ErrCrashed
 		}
 		e.mu.Lock()
 		e.finalHtlcs[id] = settled
@@ -835,7 +838,7 @@ func (r *c13Run) start() {
 	}
 	cfg.PutResolverReport = func(_ kvdb.RwTx, rep *channeldb.ResolverReport) error {
 		if !e.isAlive(ep) {
-			return errC13Crashed
+			return c13ErrCrashed
 		}
 		e.mu.Lock()
 		e.reports = append(e.reports, fmt.Sprintf("%s:%d:%d", e.label(rep.OutPoint),
@@ -901,6 +904,69 @@ func (r *c13Run) start() {
 	}
 }
 
+// c13Busy reports whether any goroutine of the package (other than the
+// driver itself) is running, runnable or sleeping, i.e. not parked on a
+// channel / select / lock. Parked goroutines can only be woken by the
+// environment or by another goroutine that is then itself not parked.
+var c13StackBuf = make([]byte, 1<<20)
+
+func c13Busy() bool {
+	buf := c13StackBuf
+	n := runtime.Stack(buf, true)
+	for _, g := range strings.Split(string(buf[:n]), "\n\n") {
+		if !strings.Contains(g, "contractcourt.") && !strings.Contains(g, "chainio.") {
+			continue
+		}
+		if strings.Contains(g, "c13Run).run(") || strings.Contains(g, "c13RunChildren") {
+			continue
+		}
+		nl := strings.Index(g, "\n")
+		if nl < 0 {
+			continue
+		}
+		hdr := g[:nl]
+		lb, rb := strings.Index(hdr, "["), strings.Index(hdr, "]")
+		if lb < 0 || rb < lb {
+			continue
+		}
+		st := hdr[lb+1 : rb]
+		if c := strings.Index(st, ","); c >= 0 {
+			st = st[:c]
+		}
+		switch st {
+		case "select", "chan receive", "chan send", "semacquire", "sync.Mutex.Lock",
+			"sync.RWMutex.RLock", "sync.RWMutex.Lock", "sync.Cond.Wait",
+			"sync.WaitGroup.Wait", "select (no cases)", "chan receive (nil chan)",
+			"chan send (nil chan)":
+		default:
+			return true
+		}
+	}
+	return false
+}
+
+// flushConfirms lets every sweep that was offered and is allowed by the
+// chain confirm now (called between environment steps).
+func (r *c13Run) flushConfirms() bool {
+	e := r.env
+	e.mu.Lock()
+	defer e.mu.Unlock()
+	did := false
+	for op := range e.offered {
+		if _, ok := e.spends[op]; ok {
+			continue
+		}
+		if e.confirmable[e.label(op)] {
+			e.confirmOurs(op)
+			did = true
+		}
+	}
+	if did {
+		e.touch()
+	}
+	return did
+}
+
 // quiet waits until nothing happened for `idle`, handling stops.
 func (r *c13Run) quiet(idle time.Duration) {
 	e := r.env
@@ -917,7 +983,13 @@ func (r *c13Run) quiet(idle time.Duration) {
 			continue
 		default:
 		}
-		if time.Since(time.Unix(0, e.lastAct.Load())) > idle {
+		if time.Since(time.Unix(0, e.lastAct.Load())) > idle && !c13Busy() {
+			// still parked a moment later, and nothing happened in between?
+			mark := e.lastAct.Load()
+			time.Sleep(time.Millisecond)
+			if c13Busy() || e.lastAct.Load() != mark {
+				continue
+			}
 			// one more look at the crash channel before leaving
 			select {
 			case n := <-e.crashCh:
@@ -967,6 +1039,9 @@ func (r *c13Run) run() {
 	r.start()
 	r.quiet(c13Idle)
 	for _, s := range r.scn.steps {
+		if r.flushConfirms() {
+			r.quiet(c13Idle)
+		}
 		e.mu.Lock()
 		e.pf("ENV %s", s.name)
 		e.mu.Unlock()
@@ -979,6 +1054,9 @@ func (r *c13Run) run() {
 	end := time.Now().Add(c13StepMax)
 	for time.Now().Before(end) {
 		r.quiet(c13Idle)
+		if r.flushConfirms() {
+			continue
+		}
 		e.mu.Lock()
 		done := e.fullyClosed
 		e.mu.Unlock()
@@ -992,10 +1070,10 @@ func (r *c13Run) run() {
 			}
 			break
 		}
-		if time.Since(time.Unix(0, e.lastAct.Load())) > c13FinalIdle {
+		if time.Since(time.Unix(0, e.lastAct.Load())) > c13FinalIdle && !c13Busy() {
 			break
 		}
-		time.Sleep(5 * time.Millisecond)
+		time.Sleep(2 * time.Millisecond)
 	}
 	if r.arb != nil {
 		_ = r.arb.Stop()
